@@ -1,5 +1,6 @@
 """Parser for rustc's `-Zunpretty=mir` text (the subset the translator understands).
 Anything it cannot parse raises Unsupported; the translator then refuses the function (no verdict)."""
+import functools
 import re
 
 
@@ -26,6 +27,11 @@ BB_RE = re.compile(r"^    (bb\d+)( \(cleanup\))?: \{$")
 
 
 def split_top(s, sep=","):
+    return list(_split_top(s, sep))
+
+
+@functools.lru_cache(maxsize=200000)
+def _split_top(s, sep=","):
     out, depth, cur = [], 0, ""
     i = 0
     in_str = False
@@ -59,7 +65,7 @@ def split_top(s, sep=","):
         i += 1
     if cur.strip():
         out.append(cur.strip())
-    return out
+    return tuple(out)
 
 
 def parse(text):
@@ -148,6 +154,7 @@ def parse(text):
 
 
 # ------------------------------------------------------------------ places / operands
+@functools.lru_cache(maxsize=200000)
 def parse_place(s):
     """place AST: ('local', '_3') | ('deref', P) | ('field', P, idx, type) | ('downcast', P, variant)
     | ('index', P, operand-local) | ('constindex', P, n)"""
@@ -220,6 +227,7 @@ def _place(s):
     return p, rest
 
 
+@functools.lru_cache(maxsize=200000)
 def parse_operand(s):
     """('copy', place) | ('move', place) | ('const', text)"""
     s = s.strip()
@@ -230,9 +238,12 @@ def parse_operand(s):
             return (k.strip(), parse_place(s[len(k):]))
     if s.startswith("const "):
         return ("const", s[len("const "):].strip())
+    if re.match(r"^[A-Za-z_<][\w:<>, &'\[\]()]*$", s) and "::" in s:
+        return ("fnitem", s)          # a function item used as a value (e.g. `.and_then(Duration::try_days)`)
     raise Unsupported("operand " + s)
 
 
+@functools.lru_cache(maxsize=200000)
 def strip_generics(path):
     """remove ::<...> and <...> generic argument lists from a path"""
     out, depth = "", 0
